@@ -102,6 +102,9 @@ class FieldArrayModel(FieldCompositeModel):
         self.sum_expr = None
         self.sum_expr_btor = None
         
+        self.trim_to_size()
+            
+    def trim_to_size(self):
         if self.is_rand_sz and self.is_scalar:
             # Elements were pre-allocated up to the largest admissible size.
             # Only the first 'size' of them are part of the list
